@@ -50,6 +50,8 @@ type Unit struct {
 	Sites []*flow.Site
 	pc    map[*flow.Block]*flow.F
 	fps   map[*flow.Block]*footprint
+	edgeLit     map[*flow.Block]edgeLiteral
+	litAssigned map[litPos][]string
 }
 
 func NewWorld(p *load.Program) *World {
